@@ -134,6 +134,10 @@ Theorem dense_results_fresh_proof :
   && todense_allocates_first && todense_returns_only_allocation = true.
 Proof. vm_compute. reflexivity. Qed.
 
+Theorem reductions_return_fresh_proof :
+  nonempty reduce_calc_returns_fresh && forallb (fun p => snd p) reduce_calc_returns_fresh = true.
+Proof. vm_compute. reflexivity. Qed.
+
 Example out_swap_example :
   let h := fun i => match i with 0 => 10 | 1 => 11 | _ => 12 end in
   shallow_copy_of nat h 0 2 0 = 12 /\ shallow_copy_of nat h 0 2 1 = 11 /\ shallow_copy_of nat h 0 2 2 = 12.
